@@ -10,7 +10,7 @@ From Coq Require Import Reals ZArith List.
 From Flocq Require Import Core.Raux.
 From QV Require Import Rt.Prelude Rt.Amount Rt.Quantity Gen.Prefixes Gen.Kernels Amount.DecModel Amount.Dec Amount.DecAcc
   Proofs.Laws Proofs.Kernel Proofs.C09 Proofs.Derived Proofs.AccDec Proofs.AccDecExamples.
-From QV Require Amount.Laws.
+From QV Require Amount.Laws Proofs.C14.
 Local Open Scope R_scope.
 
 (** per-operation accuracy of the amount type *)
@@ -145,6 +145,14 @@ Proof. exact dec_derived_fit. Qed.
 Theorem DEC_C04_operations : dop_rel dec_mul Rmult (fun _ => True) /\ dop_rel dec_div Rdiv (fun y => dval y <> 0).
 Proof. exact (conj mul_dop_rel div_dop_rel). Qed.
 
+(** C14 (decimal): a table conversion is amount * factor + offset within 5e-19, exact when the product needs no rounding *)
+Theorem DEC_C14_affine : forall (S : QBase DEC), QLaws S -> forall (q : Qt S) (to : nat) (k c : dec) (z : Qt S),
+  In to (u_iter S) -> Amount.Laws.dec_ok (q_amount S q) -> Amount.Laws.dec_ok k -> Amount.Laws.dec_ok c ->
+  Proofs.C14.affine S q to (k, c) = Ok (Some z) ->
+  q_unit S z = to /\ Rabs (dval (q_amount S z) - (dval (q_amount S q) * dval k + dval c)) <= half_ulp18 /\
+  ((d_nfd (q_amount S q) + d_nfd k <= 18)%Z -> dval (q_amount S z) = dval (q_amount S q) * dval k + dval c).
+Proof. exact dec_affine_value. Qed.
+
 Print Assumptions DEC_operations.
 Print Assumptions DEC_comparison.
 Print Assumptions DEC_totality.
@@ -159,3 +167,4 @@ Print Assumptions DEC_C02_order.
 Print Assumptions DEC_C04_natural_unit.
 Print Assumptions DEC_C04_fit_path.
 Print Assumptions DEC_C04_operations.
+Print Assumptions DEC_C14_affine.
